@@ -16,120 +16,140 @@ USED = {
             "CombinedProfileConstructor drops the absence_condition of the intron profile (partly retained introns)",
             "classify_assignment tests 'minor error' before 'major inconsistency'",
             "max_intron_abs_diff made a constant (preset exact tolerates a moved right splice site)",
-            "add_extra_out_exon_events: reverse loop stops before read intron 0 (extra exon beyond the right end)"],
+            "add_extra_out_exon_events: reverse loop stops before read intron 0 (extra exon beyond the right end)",
+            "fake_terminal_exon_right test measures the isoform region instead of the read's last exon"],
     "C02": ["`not (A and B)` rewritten as `not A and not B` in process_inconsistent", "ambiguous-read weight from len(isoform_matches)", "multi-locus ties counted per locus (recorded finding)",
             "GeneAssignmentExtractor.confirms_feature reads the transcript-level type", "count files appended to instead of truncated (AbstractCounter constructor)",
             "delete_from_storage resets read_assignment_counts to 0 (read attached to a discarded and a surviving model counted twice)",
             "alignment statistics / __not_aligned not reset between experiments of one run",
             "find_duplicates discards the second copy only for equal regions (read crossing a split cluster counted twice)",
-            "gene grouped counter built with the transcript quantification strategy"],
+            "gene grouped counter built with the transcript quantification strategy",
+            "per-chromosome worker returns read ids as a set (reads with two alignments on one chromosome treated as unique)"],
     "C03": ["detected_known_isoforms reset per region", "TranscriptToGeneJoiner merges an annotated gene into a novel gene", "ExcludingIdDistributor.increment re-draws only once",
             "validate_exons rejects one-base exons",
             "create_extended_storage returns before adding novel models on sequences without annotated genes",
             "GFFPrinter.dump gene extent forgets the extension contributed by earlier transcripts",
             "extended-annotation part of a chromosome written after the chromosome's processed lock (kill + resume)",
-            "GFFPrinter.printed_gene_ids made local to dump() (gene record repeated per region)"],
+            "GFFPrinter.printed_gene_ids made local to dump() (gene record repeated per region)",
+            "sum_intervals_from_point mutates the caller's exon list in place (--sqanti_output aliases it with the model)"],
     "C04": ["`>` -> `>=` in near-duplicate novel model removal", "known-chain suppression test made dead", "class-level known_introns never reset",
             "model rejected by the late MAPQ filter keeps its reads (delete_from_storage dropped)",
             ".nic/.nnic decided from the delta-tolerant intron profile instead of exact annotated introns",
             "detect_similar_isoforms skipping two-exon models (mono-intronic duplicates)",
             "validate_exons rejects one-base exons with strict < (model dropped from the GTF, reads still listed)",
-            "can_collapse accepts a substitute intron abutting the next intron (zero-length exon)"],
+            "can_collapse accepts a substitute intron abutting the next intron (zero-length exon)",
+            "get_clean_strand returns '-' for chains without any canonical site (only_canonical level)"],
     "C05": ["in-memory storage end-index fill loop", "index mix-up in MultimapResolver.find_duplicates", "split_coverage_regions single-bin / last-bin", "in-memory storage [end_bin + 1]",
             "multimappers_counts bulk update", "alignment statistics counted per sub-region",
             "lost parentheses: simple_alignments_mapq_cutoff applied to every intergenic alignment",
             "alignment_stat_counter not reset between experiments (log statistics)",
             "TmpFileAssignmentPrinter skips assignments whose isoform_matches list is empty",
-            "BAMOnlineMerger._set stops filling at the first file without alignments"],
+            "BAMOnlineMerger._set stops filling at the first file without alignments",
+            "forward_alignments drops alignments starting before a sub-region (cluster start at a bin boundary)"],
     "C06": ["mutable default argument forbidden_ids=set()", "BasicReadAssignment.__getstate__ field order", "set iteration order in group ids / gene_ids", "class-level StrandDetector.strand_dict",
             "running minimum dropped from InMemoryAlignmentStorage.fill_index",
             "BasicReadAssignment.__init__ stores the real penalty score (in-memory path only)",
             "pre_filter_transcripts writes the raised coverage cut-off into the shared args object (-t 1 vs -t N)",
             "select_noninformative tie-break by the per-process assignment_id",
-            "linear grouped count file opened in append mode (repetition into the same folder doubles it)"],
+            "linear grouped count file opened in append mode (repetition into the same folder doubles it)",
+            "select_reference_gene sort key without the gene id (hash-order tie)"],
     "C07": ["stage lock kept by fresh runs", "skip-if-processed branch after ReadAssignmentAggregator construction", "lock removal order; unaligned count on resume; stale locks with --force",
             "clean_locks before a lazy map()", "clean_locks with sample.out_raw_file instead of dump_filename (--read_assignments runs)",
             "AssignedFeatureCounter truncates the matrix file instead of the linear counts file",
             "skip-if-collected branch on --resume returns fewer read ids (collect_reads_in_parallel)",
             "resume skips the read-group table split when part files merely exist",
-            "sample lock written inside the with-block of the info file (lock before flush)"],
+            "sample lock written inside the with-block of the info file (lock before flush)",
+            "resume adopts an existing database file in the output folder when the cache lookup fails"],
     "C08": ["gene-level type used for the 'primary unique' test", "per-chromosome de-duplication of processed read ids", "select_noninformative tie-break; __eq__ on isoform order",
             "ReadAssignmentLoader.get_next applies the last verdict to every alignment on the chromosome", "BasicReadAssignment.__setstate__ swaps genes and isoforms",
             "find_duplicates position/index mix-up (same as an earlier C05 idea)",
             "resolved list written to the multimapper files only when something was suspended (tie verdict lost)",
             "supplementary records dropped only with --no_secondary in process_genic",
-            "filter_assignments builds the keep set before de-duplication (duplicates never suspended)"],
+            "filter_assignments builds the keep set before de-duplication (duplicates never suspended)",
+            "select_best_assignment: inconsistent primary checked before consistent alignments"],
     "C09": ["read-group table split de-duplicates reads globally", "BAMOnlineMerger renumbers the files", "ReadIdSplitReadGrouper without delimiter; group id numbering",
             "ProfileFeatureCounter group_numeric_ids shared", "AlignmentTagReadGrouper warn-once flag guards the registration of NA",
             "matrix columns in natural order while values stay in lexicographic order",
             "stale loop variable in forward_counts (group of another read in transcript-model grouped counts)",
             "read_group lock written before prepare_read_groups (kill during the split + resume)",
-            "AssignedFeatureCounter: falsy numeric group id 0 falls back to NA"],
+            "AssignedFeatureCounter: falsy numeric group id 0 falls back to NA",
+            "user's column/delimiter options re-applied to the per-chromosome group tables"],
     "C10": ["annotation exon-id cache shared across samples", "use_technical_replicas latched off", "alignment_stat_counter / detected_known_isoforms not reset",
             "YAML labels inherited by the next experiment", "experiment names stripped after the uniqueness check",
             "YAML illumina bam list out of step after an experiment without long-read files",
             "mutable default argument read_groups=set() in AbstractReadGrouper.__init__ (groups leak between experiments, -t 1)",
             "create_extended_storage caches the reference model list per chromosome and appends novel models to the cached list",
-            "combine_table cuts the three statistics rows after the outer merge (feature ids sorting after '_')"],
+            "combine_table cuts the three statistics rows after the outer merge (feature ids sorting after '_')",
+            "read-group table cached per run together with the processed-reads set (experiments sharing read ids)"],
     "C11": ["polyT twin measures to the wrong exon end", "is_start_internal tests inc[0]", "Canonical flag for strand '.'; path order in construct_fl_isoforms; isoforms sharing an intron chain; thread_starts tolerance",
             "terminal-exon alternation branch compares with the wrong length", "ExonCorrector splice-site selection uses the left-end window for right ends",
             "polyT side of NonOverlappingFeaturesProfileConstructor uses +delta like the polyA side",
             "polyT side of the novel mono-exon filter (construct_monoexon_novel) checks the polyA exons",
             "correct_novel_transcript_ends scans read ends ascending (innermost instead of outermost end)",
-            "starting_known_positions keyed by the last intron instead of the first"],
+            "starting_known_positions keyed by the last intron instead of the first",
+            "is_start_trusted uses mapped_strand (record orientation) instead of the assigned strand"],
     "C12": ["`all` instead of `any` when skipping empty chromosomes", "make-style mtime freshness test in find_converted_db", "ungrouped exon/intron counters take the file label",
             "unaligned reads counted for the first BAM only",
             "BAM merge key starts with reference_id (files with differently ordered @SQ lines)",
             "stale uncompressed copy of a plain-gzip reference reused from the output folder",
             "BAMOnlineMerger._set numbers the non-empty iterators by rank (files empty in a region)",
-            "BAMOnlineMerger.get fast path peeks queue[-1] (three or more files)"],
+            "BAMOnlineMerger.get fast path peeks queue[-1] (three or more files)",
+            "write_string length prefix in characters instead of bytes (non-ASCII file labels)"],
     "C13": ["profile state -2 counted as exclusion", "single winner among equally close twin features", "class-level cache of set_feature_properties", "ProfileFeatureCounter.is_valid treats empty profiles as missing",
             "construct_exon_profile mapped region uses the END of the last block",
             "--delta 0 treated as 'not given' in set_matching_options",
             "ProfileFeatureCounter.dump: break instead of continue for a group without counts",
-            "ProfileFeatureCounter.group_numeric_ids made a class attribute (shared between counters/chromosomes)"],
+            "ProfileFeatureCounter.group_numeric_ids made a class attribute (shared between counters/chromosomes)",
+            "polyT masking of the intron profile tests the feature start instead of its end"],
     "C14": ["right terminal-exon correction resets the corrected start", "match_genomic_features candidate-list position", "micro-intron-retention events regardless of the strategy flag",
             "add_polya_info refreshes read_end twice (polyT trimming keeps the old read_start)",
             "BEDPrinter chromEnd from the uncorrected alignment end",
             "--delta 0 treated as 'not given' (correction tolerance)",
             "correct_terminal_exons takes the fake_terminal_exons column of the strategy table",
-            "get_read_blocks: X operations inside an open block not advanced (hoisted event sets)"],
+            "get_read_blocks: X operations inside an open block not advanced (hoisted event sets)",
+            "process_events advances behind the FIRST read intron of an event (events spanning three introns)"],
     "C15": ["BasicReadAssignment.serialize wrong type field", "save_info polyA count", "write_string byte length; read_dict signedness", "ReadAssignment.deserialize swaps internal polyA / polyT",
             "abridged reader sets end from the first exon",
             "TmpFileAssignmentPrinter skips assignments with an empty isoform_matches list",
             "resolved multi-mapper records written to the stream of the wrong chromosome (stale loop variable)",
             "--read_assignments run deletes the saved assignments it was started from",
-            "BasicReadAssignment.__getstate__ order (pickle path)"],
+            "BasicReadAssignment.__getstate__ order (pickle path)",
+            "IsoformMatch.deserialize goes through the constructor, which drops 'none' events"],
     "C16": ["flattened condition in the N branch of get_read_blocks", "truthiness test on polyA/polyT exon counts", "dist == 0 sentinel in shift_polya/shift_polyt", "bare hard clip in polya_finder",
             "PolyAFixer.correct_read_info keep-one-exon guard split per tail",
             "get_read_blocks rewritten with a 0-based cursor and truthiness tests (alignments starting at base 1)",
             "stale local alias of the exon list in AlignmentInfo.add_polya_info",
             "CigarEvent helper sets built once: seq_mismatch (X) missing from the block-opening set",
-            "external_polyt_pos shifted with polya_exon_count"],
+            "external_polyt_pos shifted with polya_exon_count",
+            "find_polyt_head: uncapped to_check_end reused for the coordinate conversion (short reads)"],
     "C17": ["`while` -> `if` when skipping reserved id numbers", "class-level GFFPrinter exon_id cache", "get_id returning bare numbers; exon ids colliding with reference ids",
             "reference numbers not reserved when the chromosome name contains a dot", "GFFPrinter.printed_gene_ids keeps only the previous region",
             "novel unspliced gene ids without the chromosome name",
             "reference exon ids preloaded once per (start, end), strand ignored",
             "GFFPrinter looks exon ids up with the gene record's strand (gene with transcripts on both strands)",
-            "detected_known_isoforms guard dropped on the full-length path (reference isoform reported from two clusters)"],
+            "detected_known_isoforms guard dropped on the full-length path (reference isoform reported from two clusters)",
+            "transcript id built from value+1, distributor advanced afterwards (reserved numbers not skipped)"],
     "C18": ["class-level canonical-site memo without chromosome", "annotation majority decides the strand of an intron annotated on both strands", "memo keyed by intron only; reference region too short after reload",
             "get_strand: tie no longer falls back to tails", "select_reference_gene called with the clean strand (strand inherited from any gene sharing an intron)", "case-sensitive comparison with a soft-masked reference",
             "check_sites_are_canonical for undefined strand: per-intron either-strand test",
             "reference window padded and clamped at the start of the sequence (offsets shifted for loci starting within 20 bases)",
             "stale uncompressed copy of a plain-gzip reference reused (flags follow another genome)",
-            "TSV printer passes the isoform's strand to check_sites_are_canonical"],
+            "TSV printer passes the isoform's strand to check_sites_are_canonical",
+            "get_strand called with (has_polyt, has_polya) swapped at the model-construction site"],
     "C19": ["guard dropped in GeneInfo.split_exons", "jaccard_similarity double-counts a block", "truncate_read_to_polya boundaries", "interval_bin_search rewritten with bisect",
             "construct_profile_for_features advances both pointers on a match",
             "sum_intervals_to_point off by one at interval ends",
             "GeneInfo.from_models builds isoform profiles with the matching delta comparator",
             "NonOverlappingFeaturesProfileConstructor calls the comparator with swapped arguments",
-            "read_coverage_fraction early exit treats touching intervals as disjoint"],
+            "read_coverage_fraction early exit treats touching intervals as disjoint",
+            "args.delta = args.delta or strategy.delta (explicit 0 lost; profile constructors get the preset's tolerance)"],
     "C20": ["fixed temporary file name in the atomic JSON writer", "start-up housekeeping deletes other processes' temporary files", "check-then-create of the per-user cache folder",
             "database freshness test weakened to >= in find_converted_db",
             "converted database written to a shared --genedb_output folder; check-then-create of that folder",
             "convert_db removes the superseded database another run is still working with",
             "cache files created with open(...,'x') and filled afterwards (empty file visible to other runs)",
-            "store_alignment rewrites alignment_config.json in place (not atomically)"],
+            "store_alignment rewrites alignment_config.json in place (not atomically)",
+            "convert_db merges records written meanwhile with a loop variable shadowing gtf_filename (database filed under another annotation)"],
 }
 
 TEMPLATE = open(os.path.join(os.path.dirname(os.path.abspath(__file__)), "seed_prompt_template.txt")).read()
